@@ -405,6 +405,156 @@ theorem keyStr_inj : KbInj keyStr := by
     simp only [List.cons.injEq, and_true, true_and] at h
     exact h
 
+/-- the decoder inverts the codec: the bytes hashed for a key ARE the key's bytes -/
+theorem code_pos (b : List Nat) : 1 ≤ code b := by
+  unfold code
+  have : ∀ (l : List Nat) (acc : Nat), 1 ≤ acc → 1 ≤ l.foldl (fun acc x => acc * 256 + x) acc := by
+    intro l
+    induction l with
+    | nil => intro acc h; exact h
+    | cons x xs ih =>
+      intro acc h
+      rw [List.foldl_cons]
+      apply ih
+      omega
+  exact this b 1 (Nat.le_refl 1)
+
+theorem code_append_single (b : List Nat) (x : Nat) : code (b ++ [x]) = code b * 256 + x := by
+  unfold code
+  rw [List.foldl_append]
+  rfl
+
+theorem digitsAux_code_rev : ∀ (r acc : List Nat) (fuel : Nat), code r.reverse ≤ fuel → (∀ x ∈ r, x < 256) →
+    digitsAux fuel (code r.reverse) acc = r.reverse ++ acc := by
+  intro r
+  induction r with
+  | nil =>
+    intro acc fuel _ _
+    cases fuel with
+    | zero => rfl
+    | succ f => simp [digitsAux, code]
+  | cons x r ih =>
+    intro acc fuel hf hb
+    have hx : x < 256 := hb x (by simp)
+    have hcb := code_pos r.reverse
+    rw [List.reverse_cons, code_append_single] at hf ⊢
+    cases fuel with
+    | zero => omega
+    | succ f =>
+      unfold digitsAux
+      rw [if_neg (by omega)]
+      have h1 : (code r.reverse * 256 + x) / 256 = code r.reverse := by omega
+      have h2 : (code r.reverse * 256 + x) % 256 = x := by omega
+      rw [h1, h2, ih (x :: acc) f (by omega) (fun y hy => hb y (by simp [hy]))]
+      simp
+
+theorem digitsAux_code (b acc : List Nat) (fuel : Nat) (hf : code b ≤ fuel) (hb : ∀ x ∈ b, x < 256) :
+    digitsAux fuel (code b) acc = b ++ acc := by
+  have := digitsAux_code_rev b.reverse acc fuel (by rw [List.reverse_reverse]; exact hf)
+    (fun x hx => hb x (List.mem_reverse.mp hx))
+  rw [List.reverse_reverse] at this
+  exact this
+
+theorem keyStr_code {b : List Nat} (hb : ∀ x ∈ b, x < 256) : keyStr (code b) = b := by
+  have hd : digits (code b) = b := by
+    unfold digits
+    rw [digitsAux_code b [] (code b) (Nat.le_refl _) hb, List.append_nil]
+  unfold keyStr
+  rw [hd, if_pos rfl]
+
+/-! ## the key order of `get_keys_in_buckets` -/
+
+theorem bytesLe_refl : ∀ a : List Nat, bytesLe a a = true := by
+  intro a
+  induction a with
+  | nil => rfl
+  | cons x xs ih => simp [bytesLe, ih]
+
+theorem bytesLe_total : ∀ a b : List Nat, bytesLe a b = true ∨ bytesLe b a = true := by
+  intro a
+  induction a with
+  | nil => intro b; left; cases b <;> rfl
+  | cons x xs ih =>
+    intro b
+    cases b with
+    | nil => right; rfl
+    | cons y ys =>
+      simp only [bytesLe]
+      by_cases h1 : x < y
+      · left; simp [h1]
+      · by_cases h2 : y < x
+        · right; simp [h2]
+        · have : x = y := by omega
+          subst this
+          simp only [Nat.lt_irrefl, if_false]
+          exact ih ys
+
+theorem bytesLe_antisymm : ∀ a b : List Nat, bytesLe a b = true → bytesLe b a = true → a = b := by
+  intro a
+  induction a with
+  | nil => intro b _ h2; cases b with
+    | nil => rfl
+    | cons _ _ => simp [bytesLe] at h2
+  | cons x xs ih =>
+    intro b h1 h2
+    cases b with
+    | nil => simp [bytesLe] at h1
+    | cons y ys =>
+      simp only [bytesLe] at h1 h2
+      by_cases hxy : x < y
+      · have : ¬ y < x := by omega
+        simp [hxy, this] at h2
+      · by_cases hyx : y < x
+        · simp [hxy, hyx] at h1
+        · have : x = y := by omega
+          subst this
+          simp only [Nat.lt_irrefl, if_false] at h1 h2
+          rw [ih ys h1 h2]
+
+theorem bytesLe_trans : ∀ a b c : List Nat, bytesLe a b = true → bytesLe b c = true → bytesLe a c = true := by
+  intro a
+  induction a with
+  | nil => intro b c _ _; cases c <;> rfl
+  | cons x xs ih =>
+    intro b c h1 h2
+    cases b with
+    | nil => simp [bytesLe] at h1
+    | cons y ys =>
+      cases c with
+      | nil => simp [bytesLe] at h2
+      | cons z zs =>
+        simp only [bytesLe] at h1 h2 ⊢
+        by_cases hxy : x < y
+        · by_cases hyz : y < z
+          · have : x < z := by omega
+            simp [this]
+          · by_cases hzy : z < y
+            · simp [hyz, hzy] at h2
+            · have : y = z := by omega
+              subst this
+              simp [hxy]
+        · by_cases hyx : y < x
+          · simp [hxy, hyx] at h1
+          · have : x = y := by omega
+            subst this
+            simp only [Nat.lt_irrefl, if_false] at h1
+            by_cases hxz : x < z
+            · simp [hxz]
+            · by_cases hzx : z < x
+              · simp [hxz, hzx] at h2
+              · have : x = z := by omega
+                subst this
+                simp only [Nat.lt_irrefl, if_false] at h2 ⊢
+                exact ih ys zs h1 h2
+
+/-- the order the driver sorts by — byte-wise `String::cmp` on the decoded keys — is a total
+    order on key codes: the hypothesis `TotalOrder le` of `sim_response_order_independent` /
+    `sim_round_order_independent` is discharged for the instance that is actually run -/
+theorem totalOrder_keyLe : TotalOrder (fun a b => bytesLe (keyStr a) (keyStr b)) :=
+  ⟨fun a b => bytesLe_total _ _,
+   fun a b c h1 h2 => bytesLe_trans _ _ _ h1 h2,
+   fun a b h1 h2 => keyStr_inj a b (bytesLe_antisymm _ _ h1 h2)⟩
+
 /-! ## an ideal byte-stream hash -/
 
 /-- the idealised 64-bit hash: no collisions, never `0` (`MerkleNode::empty`'s hash) -/
